@@ -26,6 +26,7 @@ THEOREMS = ["JanetModel.Props.C12." + t for t in (
     "never_reads_outside", "den_never_reads_outside", "match_attempt_never_reads_outside", "depth_balanced", "depth_exhaustion",
     "find_all_agrees_with_repeated_match", "find_agrees_with_repeated_match", "find_first_error",
     "replace_all_agrees_with_repeated_match", "replace_agrees_with_repeated_match", "match_attempt_end_in_range",
+    "compile_validated_correct", "compiled_entry_points_eq_source",
     "lenprefix_leak_breaks_op_eq_den", "decode_sizes_agree")]
 # facts about the CURRENT peg.c (Gen/Peg.lean) that the model relies on; they fail to check on a tree with the defects
 TIE = ["JanetModel.Peg.Tie." + t for t in (
@@ -80,9 +81,14 @@ class Case:
     def model_lines(self, leak):
         L = []
         T, A, S = hx(self.text), peggen.vals_field(self.args), ",".join(peggen.vtok(self.subst))
-        spec = peggen.spec_field(self.g)
+        gc, recursive = peggen.canon_tags(self.g)
+        self.expect_valid = not recursive and not peggen.has_struct(self.g)
+        spec = peggen.spec_field(gc)
         if self.dump and self.dump.startswith("B "):
             _, hb, words, consts = self.dump.split(" ")
+            L.append((("validate", "compile"), "validate %s %s %s" % (words, consts, spec)))
+            if compile_model_applies(gc):
+                L.append((("cmodel", "compile"), "compile %s" % ",".join(peggen.ptok(gc))))
             for kind in ("op", "den"):
                 for e in (ENTRIES if kind == "op" and not self.noscan else ("match",)):
                     L.append(((kind, e), "%s %s %s %d %s %s %s %d %s%s" % (kind, e, hb, leak, words, consts, T, self.start, A,
@@ -90,6 +96,32 @@ class Case:
         for e in (("match",) if self.noscan else ENTRIES):
             L.append((("spec", e), "spec %s %s %s %d %s%s" % (e, spec, T, self.start, A, (" " + S) if e.startswith("replace") else "")))
         return L
+
+
+CMODEL_KINDS = {'str', 'int', 'bool', 'range', 'set', 'look', 'choice', 'seq', 'if', 'ifnot', 'lenprefix', 'sub', 'til', 'split', 'not',
+                'to', 'thru', 'drop', 'onlytags', 'error', 'error0', 'any', 'some', 'opt', 'between', 'atleast', 'atmost', 'repeat',
+                'capture', 'accumulate', 'group', 'unref', 'nth', 'number', 'position', 'line', 'column', 'backmatch', 'backref',
+                'argument', 'readint'}
+
+
+def compile_model_applies(g):
+    """forms the compile model (Peg/Compile.lean) covers, and no sub-form occurring twice (the real compiler's rule cache
+    would share it)"""
+    if not set(peggen.kinds(g)) <= CMODEL_KINDS:
+        return False
+    seen = set()
+
+    def walk(p):
+        src = peggen.to_janet(p)
+        if src in seen:
+            return False
+        seen.add(src)
+        if p[0] == 'error0':
+            if "0" in seen:
+                return False
+            seen.add("0")
+        return all(walk(c) for c in peggen.children(p))
+    return walk(g)
 
 
 # ------------------------------------------------------------------------------------------------ expected from repeated match
@@ -270,6 +302,14 @@ def compare(case):
         op = case.model.get(("op", e))
         if op is not None and op != real:
             diffs.append(("op", e, op, real))
+    va = case.model.get(("validate", "compile"))
+    if va is not None and getattr(case, "expect_valid", False) and va != "V1":
+        diffs.append(("validate", "compile", "V1", va))
+    cm = case.model.get(("cmodel", "compile"))
+    if cm is not None and case.dump and case.dump.startswith("B "):
+        real_words = case.dump.split(" ")[2]
+        if cm != "W %s V1" % real_words:
+            diffs.append(("cmodel", "compile", "W %s V1" % real_words, cm))
     dn, op = case.model.get(("den", "match")), case.model.get(("op", "match"))
     if dn is not None and op is not None and dn != op and not (case.leak & 1):
         diffs.append(("den", "match", dn, op))
@@ -560,7 +600,7 @@ def run(ctx, only_cases=None):
         ctx.violation(sig, {"kind": "crash", "case": case_to_json(m), "line": cr["line"], "rc": cr["rc"], "stderr": cr["stderr"]},
                       what="implementation crashed / hung (rc None = timeout) / sanitizer report in peg %s on %s" % (cr["entry"], m.describe()))
     # property-level disagreements first: spec / ref / scan are oracles of the property itself
-    order = {"spec": 0, "ref": 1, "scan": 2, "compile": 3, "op": 4, "den": 5}
+    order = {"spec": 0, "ref": 1, "scan": 2, "compile": 3, "op": 4, "den": 5, "validate": 6, "cmodel": 7}
     diffs_all.sort(key=lambda cd: (order[cd[1][0]], peggen.size(cd[0].g) + len(cd[0].text)))
     direct = [cd for cd in diffs_all if cd[1][0] in ("spec", "ref", "scan")]
     seen_sigs = 0
@@ -582,7 +622,7 @@ def run(ctx, only_cases=None):
                             "entry": dd[0][1], "expected": dd[0][2], "observed": dd[0][3], "case": case_to_json(m), "unminimised": case_to_json(c),
                             "model_answers": {"%s/%s" % k: v for k, v in m.model.items()}, "broken": broken},
                       what="peg/%s on %s: implementation gives %s, %s gives %s" % (dd[0][1], m.describe(), dd[0][3], d[0], dd[0][2]))
-    model_only = [cd for cd in diffs_all if cd[1][0] in ("op", "den", "compile")]
+    model_only = [cd for cd in diffs_all if cd[1][0] in ("op", "den", "compile", "validate", "cmodel")]
     if model_only:
         c, d = model_only[0]
         broken.append("correspondence %s/%s: %d differing answers, first on %s: model %s, implementation %s" % (d[0], d[1], len(model_only), c.describe(), d[2], d[3]))
@@ -601,12 +641,16 @@ def run(ctx, only_cases=None):
         "cases": len(cases), "harness_answers": stats["harness_lines"], "model_answers": stats["model_lines"],
         "python_reference_checked": ref_checked, "combinator_histogram": dict(sorted(kinds_hist.items())), "match_outcomes": outcome_hist,
         "text_lengths": {str(k): sum(1 for c in cases if len(c.text) == k) for k in sorted(set(len(c.text) for c in cases))},
+        "compiled_bytecode_validated_against_source": sum(1 for c in cases if c.model.get(("validate", "compile")) == "V1"),
+        "compile_model_words_equal_real": sum(1 for c in cases if ("cmodel", "compile") in c.model),
+        "validation_expected": sum(1 for c in cases if getattr(c, "expect_valid", False)),
         "disagreements": len(diffs_all), "crashes": len(crashes), "lenprefix_mode_leak_in_source": bool(leak & 1), "number_raw_accumulate_in_source": bool(leak & 2),
     }
     return ctx.finish("proof", cov, assumptions=[
         "Spec = documented meaning of each combinator read as one instruction of the denotational semantics (Peg/Spec.lean, Peg/Den.lean); "
         "where documentation is silent the observed behaviour is followed (notes/C12.md)",
-        "compiled-vs-source (peg/compile) is tested, not proved",
+        "compiled-vs-source: the REAL compiler's output is validated per grammar by a proved-sound validator (compile_validated_correct); "
+        "a general theorem about a model of peg_compile1 is not proved (the compile model is compared word by word with the real output)",
         "number scanning, janet_to_string of non-modelled values, user functions other than the harness' f-* are outside the model"])
 
 
